@@ -143,14 +143,14 @@ func c14Ops(s schema.Type, ops *sx.Node, head string) *sx.Node {
 		v := valFromSx(op.List[1])
 		switch op.Head() {
 		case "u":
-			o, _, _ := obsUnser(s, v)
-			res.Append(c14Strip(o))
+			o, _, _ := c14Unser(s, v)
+			res.Append(o)
 		case "rt":
 			// unserialize, then validate and serialize the result (error paths are not compared: with several
 			// faults the first error depends on map iteration order)
 			rt := sx.L(sx.A("rt"))
-			o, n, ok := obsUnser(s, v)
-			rt.Append(c14Strip(o))
+			o, n, ok := c14Unser(s, v)
+			rt.Append(o)
 			if ok {
 				rt.Append(c14Strip(obsValidate(s, n)))
 				se, _, _ := obsSerialize(s, n)
@@ -162,6 +162,25 @@ func c14Ops(s schema.Type, ops *sx.Node, head string) *sx.Node {
 		}
 	}
 	return res
+}
+
+// c14Unser: Unserialize, projected by c14Strip.  When the input has SEVERAL faults the error the SDK
+// reports first depends on Go's map iteration order (properties and raw data are Go maps), and so may
+// its constraint flag: a failing call is repeated, and an outcome that varies is projected to (err any),
+// which the comparison (lib/props_c14.py) matches with every error.
+func c14Unser(s schema.Type, v any) (*sx.Node, any, bool) {
+	o, n, ok := obsUnser(s, v)
+	so := c14Strip(o)
+	if !ok && so.IsList() && so.Head() == "err" {
+		first := so.String()
+		for i := 0; i < 200; i++ {
+			o2, _, _ := obsUnser(s, v)
+			if c14Strip(o2).String() != first {
+				return sx.L(sx.A("err"), sx.A("any")), n, ok
+			}
+		}
+	}
+	return so, n, ok
 }
 
 // c14Strip projects an outcome: (err C (path...)) -> (err C)
